@@ -192,10 +192,9 @@ macro_rules! field_impl {
             type Output = Self;
 
             fn neg(self) -> Self::Output {
-                // Invariant uphold by the construction
-                // 0 <= self < PRIME
-                // therefore it is safe to avoid the modulo operation
-                Self(Self::PRIME - self.0)
+                // 0 <= self < PRIME by construction; the reduction maps -0 to 0
+                // (PRIME - 0 would be the non-canonical representation of zero).
+                Self((Self::PRIME - self.0) % Self::PRIME)
             }
         }
 
